@@ -11,6 +11,8 @@
 (*                 setters, methods and the handle reader on target 1);    *)
 (*   Mode "mini" : all words of length <= 4 over a handful of calls of     *)
 (*                 every role (used for the non-vacuity runs).             *)
+(*   Mode "scr"  : every word f, f with the user overwriting in place what *)
+(*                 the first f returned before calling f again (Scribble). *)
 (* Every user call expands to the steps Session!Plan prescribes.  The C18  *)
 (* clauses are INVARIANTs checked on every state.  With Impure # "none"    *)
 (* one impure action of Session.tla joins Next: the harness checks that    *)
@@ -23,7 +25,7 @@ EXTENDS Session, Json
 CONSTANTS Tier,        \* "quick" | "thorough"
           WorldName,   \* "w2" | "w3" | "s2" | "s3"
           Mode,        \* "fgf" | "all3" | "mini" | "registry"
-          Impure,      \* "none" | "mutate" | "cache" | "file" | "state" | "cursor"
+          Impure,      \* "none" | "mutate" | "cache" | "file" | "state" | "cursor" | "alias"
           Gen, Seed, SHARD, NSHARDS
 
 (* w2 / w3: small generated trajectories read back with the library's reader (2-D: orthogonal box off the
@@ -39,10 +41,13 @@ World == Worlds[WorldName]
 WCalls == AllCalls(World)
 (* a handful of entry points of every role, for the non-vacuity runs *)
 MiniNames == {"time_correlation", "read_neighbors", "reopen", "gr", "gr.getresults", "NematicOrder.tensor", "NematicOrder.time_corr"}
+AliasNames == {"time_correlation", "gr", "gr.getresults", "Wignerindex"}
 Alpha ==
-  IF Mode = "fgf" THEN WCalls
+  IF Mode \in {"fgf", "scr"} THEN WCalls
   ELSE IF Mode = "mini" THEN (IF Impure = "cursor"
                               THEN {c \in WCalls : Reg[c.e].n \in {"read_neighbors", "reopen", "time_correlation"} /\ c.v = 0 /\ c.s = 1}
+                              ELSE IF Impure = "alias"
+                              THEN {c \in WCalls : Reg[c.e].n \in AliasNames /\ c.v = 0 /\ c.s = 1}
                               ELSE {c \in WCalls : Reg[c.e].n \in MiniNames /\ c.v <= 1})
   ELSE IF Mode = "all3" THEN (IF Tier = "quick" THEN {c \in BaseCalls(World) : c.s = 1 /\ Reg[c.e].role # "fn"}
                               ELSE BaseCalls(World))
@@ -52,6 +57,8 @@ AlphaG == IF Mode = "fgf" /\ Tier = "quick" THEN {c \in WCalls : c.v = 0} ELSE A
 NextAlpha ==
   IF Mode = "fgf" /\ Len(word) = 2 THEN {word[1]}
   ELSE IF Mode = "fgf" /\ Len(word) = 1 THEN AlphaG
+  ELSE IF Mode = "scr" /\ Len(word) = 1 THEN (IF hist[Len(hist)].scr THEN {word[1]} ELSE {})
+  ELSE IF Mode = "scr" /\ Len(word) = 2 THEN {}
   ELSE Alpha
 
 CallNo(c) == c.e * 12 + c.v * 2 + c.s
@@ -65,6 +72,7 @@ DoStep(c) ==
   \/ Impure = "file"   /\ FileFromOtherObject(World, c)
   \/ Impure = "state"  /\ StateCorruptingCall(World, c)
   \/ Impure = "cursor" /\ CursorStealingCall(World, c)
+  \/ Impure = "alias"  /\ AliasedResultCall(World, c)
 
 (* the user issues call c: its plan is computed and the first planned step is executed *)
 UserCall(c) ==
@@ -80,7 +88,13 @@ Run ==
   /\ pending' = Tail(pending)
   /\ UNCHANGED word
 
-Next == (\E c \in NextAlpha : UserCall(c)) \/ Run
+(* the user overwrites the value the most recent step returned (between two user calls only) *)
+UserScribble ==
+  /\ Mode = "scr" \/ (Mode = "mini" /\ Impure = "alias")
+  /\ pending = << >> /\ hist # << >>
+  /\ Scribble(Len(hist))
+
+Next == (\E c \in NextAlpha : UserCall(c)) \/ Run \/ UserScribble
 Spec == Init /\ [][Next]_vars
 
 TypeOK ==
@@ -97,7 +111,9 @@ Selected ==
   /\ IF Mode = "fgf"
      THEN /\ Len(word) = 3
           /\ \/ word[2].e = word[1].e
+             \/ (Reg[word[1].e].fam # "" /\ Reg[word[2].e].fam = Reg[word[1].e].fam /\ word[2].s = word[1].s)
              \/ (CallNo(word[1]) * 31 + CallNo(word[2]) * 17 + Seed) % SampleFgf = 0
+     ELSE IF Mode = "scr" THEN Len(word) = 2
      ELSE IF Mode = "all3"
      THEN \/ Len(word) = 2 /\ Tier = "thorough"
           \/ Len(word) = 3 /\ (CallNo(word[1]) * 131 + CallNo(word[2]) * 31 + CallNo(word[3]) * 7 + Seed) % SampleAll = 0
@@ -111,7 +127,8 @@ Case ==
    steps |-> [i \in 1..Len(hist) |-> T3(hist[i].c)],
    same  |-> [i \in 1..Len(hist) |-> Same(i)],
    cur   |-> [i \in 1..Len(hist) |-> hist[i].cur],
-   wr    |-> [i \in 1..Len(hist) |-> IF hist[i].wrote THEN 1 ELSE 0]]
+   wr    |-> [i \in 1..Len(hist) |-> IF hist[i].wrote THEN 1 ELSE 0],
+   scr   |-> [i \in 1..Len(hist) |-> IF hist[i].scr THEN 1 ELSE 0]]
 RegCase == [reg |-> Reg, worlds |-> Worlds]
 Emit == /\ (Gen /\ Selected) => PrintT(ToJson(Case))
         /\ (Mode = "registry" /\ word = << >>) => PrintT(ToJson(RegCase))
